@@ -178,10 +178,72 @@ def replay_J1(L, case, md, name=''):
         k = next(j for j in range(x86native.SPSIZE) if exp[j] != got[j]); diffs.append('scratchpad[%d]: real code %#x, specification %#x' % (k, got[k], exp[k]))
     return bool(diffs), '%s word=%s i=%d v2=%d emitted=[%s]' % (kind, word, i, v2, ' '.join('%02x' % x for x in code)), diffs
 
+def _blake_state(L, env, buflen, f0=0):
+    o = (ctypes.c_int * 8)(); L.verif_blake_layout(o); lay = dict(h=o[0], t=o[1], f=o[2], buf=o[3], buflen=o[4], outlen=o[5], last=o[6], size=o[7])
+    st = dict(h=[env('h%d' % i) for i in range(8)], t=[env('t0'), env('t1')], f=[f0, env('f1')], buf=[env('b%d' % i) for i in range(128)], buflen=buflen,
+              outlen=env('S_outlen') & 0xffffffff, last=env('last_node') & 0xff)
+    S = ctypes.create_string_buffer(lay['size'])
+    for i in range(8): struct.pack_into('<Q', S, lay['h'] + 8 * i, st['h'][i])
+    for i in range(2): struct.pack_into('<Q', S, lay['t'] + 8 * i, st['t'][i]); struct.pack_into('<Q', S, lay['f'] + 8 * i, st['f'][i])
+    for i in range(128): S[lay['buf'] + i] = bytes([st['buf'][i]])
+    struct.pack_into('<I', S, lay['buflen'], buflen); struct.pack_into('<I', S, lay['outlen'], st['outlen']); S[lay['last']] = bytes([st['last']])
+    return S, st, lay
+
+def replay_B2(L, case, md, name=''):
+    """real blake2b_update (with the real compression function) from the solver's state vs RFC 7693 byte-wise streaming"""
+    import re
+    from spec import blake2b_ref as ref
+    m = re.search(r'update\(buflen=(\d+),n=(\d+)\)', name)
+    if not m: return False, 'cannot identify the case from %r' % name, []
+    buflen, n = int(m.group(1)), int(m.group(2)); env = Env(md)
+    S, st, lay = _blake_state(L, env, buflen)
+    data = bytes(env('in%d' % i) & 0xff for i in range(n))
+    r = L.verif_blake_update(S, data, ctypes.c_size_t(n))
+    h = list(st['h']); t0, t1 = st['t']; buf = list(st['buf']); bl = buflen
+    for byte in data:
+        if bl == 128:
+            t0 = (t0 + 128) & ref.M64; t1 = (t1 + (1 if t0 < 128 else 0)) & ref.M64
+            h = ref.F(h, [int.from_bytes(bytes(buf[8 * i:8 * i + 8]), 'little') for i in range(16)], [t0, t1], st['f']); bl = 0
+        buf[bl] = byte; bl += 1
+    diffs = []
+    if r != 0: diffs.append('returned %d on a valid state' % r)
+    got = dict(h=[struct.unpack_from('<Q', S, lay['h'] + 8 * i)[0] for i in range(8)], t=[struct.unpack_from('<Q', S, lay['t'] + 8 * i)[0] for i in range(2)],
+               buflen=struct.unpack_from('<I', S, lay['buflen'])[0])
+    if got['buflen'] != bl: diffs.append('buflen: real code %d, RFC %d' % (got['buflen'], bl))
+    if got['h'] != h: diffs.append('h: real code %s, RFC %s' % (_h(got['h'][:2]), _h(h[:2])))
+    if got['t'] != [t0, t1]: diffs.append('t: real code %s, RFC %s' % (_h(got['t']), _h([t0, t1])))
+    gb = S.raw[lay['buf']:lay['buf'] + min(bl, got['buflen'])]
+    if gb != bytes(buf[:len(gb)]): diffs.append('buffer prefix differs')
+    return bool(diffs), 'blake2b_update(buflen=%d, %d input bytes)' % (buflen, n), diffs
+
+def replay_B3(L, case, md, name=''):
+    import re
+    from spec import blake2b_ref as ref
+    m = re.search(r'final\(buflen=(\d+),S.outlen=(\d+),outlen=(\d+)\)', name)
+    if not m: return False, 'cannot identify the case from %r' % name, []
+    buflen, so, outlen = int(m.group(1)), int(m.group(2)), int(m.group(3)); env = Env(dict(md, S_outlen=so, last_node=0))
+    S, st, lay = _blake_state(L, env, buflen)
+    out0 = bytes(env('out%d' % i) & 0xff for i in range(80)); out = ctypes.create_string_buffer(out0, 80)
+    r = L.verif_blake_final(S, out, ctypes.c_size_t(outlen)); diffs = []
+    if outlen < so:
+        if r == 0: diffs.append('accepted an output buffer shorter than the digest')
+        if out.raw != out0: diffs.append('output written although the call must be rejected')
+    else:
+        t0 = (st['t'][0] + buflen) & ref.M64; t1 = (st['t'][1] + (1 if t0 < buflen else 0)) & ref.M64
+        bufp = st['buf'][:buflen] + [0] * (128 - buflen)
+        hh = ref.F(st['h'], [int.from_bytes(bytes(bufp[8 * i:8 * i + 8]), 'little') for i in range(16)], [t0, t1], [ref.M64, st['f'][1]])
+        exp = b''.join(x.to_bytes(8, 'little') for x in hh)[:so]
+        if r != 0: diffs.append('returned %d' % r)
+        if out.raw[:so] != exp: diffs.append('digest: real code %s.., RFC %s..' % (out.raw[:8].hex(), exp[:8].hex()))
+        if out.raw[so:] != out0[so:]: diffs.append('bytes beyond the digest length were written')
+    return bool(diffs), 'blake2b_final(buflen=%d, S.outlen=%d, outlen=%d)' % (buflen, so, outlen), diffs
+
+NAME_ONLY = ('B2', 'B3')      # drivers that can run from the case name alone (model may be empty: syntactic mismatch)
+
 def replay_R3(L, case, md, name=''):
     return replay_J1(L, case, md, name) if '(op ' in name else replay_I1(L, case, md, name)
 
-DRIVERS = {'I1': replay_I1, 'J1': replay_J1, 'R3': replay_R3}
+DRIVERS = {'I1': replay_I1, 'J1': replay_J1, 'R3': replay_R3, 'B2': replay_B2, 'B3': replay_B3}
 
 def replay_many(recs, tag='replay-native', timeout=600):
     """replays each record in a child process (the real code may crash on the solver's input -- which is itself a reproduction).
@@ -242,8 +304,8 @@ def _replay_record(L, rec):
     try:
         out = []
         for name, md in rec.get('failed', [])[:3]:
-            if not isinstance(md, dict) or not md: continue
-            for vi, mdv in enumerate(variants(md)):
+            if not isinstance(md, dict) or (not md and lem not in NAME_ONLY): continue
+            for vi, mdv in enumerate(variants(md) if lem not in NAME_ONLY else [md]):
                 rep, desc, diffs = DRIVERS[lem](L, rec.get('case_dict') or {}, mdv, name)
                 if vi == 0 or rep: out.append('%s\n   input%s: %s\n   %s' % (name, ' (FP registers varied)' if vi else '', desc, '; '.join(diffs[:4]) if rep else 'real code agrees with the specification on this input'))
                 if rep: return 'reproduced', '\n'.join(out)
